@@ -5,4 +5,4 @@ if [ "$1" = "-e" ]; then sed -i "$2" /repo/$3; shift 3; else git -C /repo apply 
 [ "$1" = "--" ] && shift
 git -C /repo diff --stat | tail -1
 for id in "$@"; do /verif/check $id quick 2>&1 | grep -E "^C[0-9]+ quick|signature|MACHINERY" | head -${TRYMUT_LINES:-6}; done
-git -C /repo checkout -- . ; git -C /repo status --short | head -3
+git -C /repo checkout -- . ; git -C /repo status --short | head -3; /verif/check --build
